@@ -75,11 +75,12 @@ def run(ck: Checker):
                         probs.append(f'pulled elements are also stored in `{norm_text(t.value)}` (L{n.lineno})')
         ck.ob('C08-2', p.prod, loop.iter, not probs, '; '.join(sorted(set(probs))) if probs else f'elements flow only to the worker function / preprocessor and the blocking `{p.q}.put`')
     # -------------------------------------------------------------------- C08-3
+    check_private_pool(ck, 'C08-3')
     for rel, cname, itname in ((STREAMER, 'Parmapper', '__iter__'), (STREAMER_ASYNC, 'AsyncParmapper', '__aiter__')):
         cls = ck.repo.cls(rel, cname)
         f = cls.method(itname)
         ex = [n for n in walk_shallow_func(f.node) if isinstance(n, ast.Call) and (call_dotted(n) or '').endswith('PoolExecutor')]
-        ck.need(len(ex) >= 2, f'{f.key}: executor constructors not found')
+        ck.need(len(ex) >= 1, f'{f.key}: executor constructors not found')
         probs = []
         for e in ex:
             mw = e.args[0] if e.args else kwarg(e, 'max_workers')
@@ -135,3 +136,48 @@ def run(ck: Checker):
         for p in ps:
             c05.check_stop_flag(ck, 'C05-3', p)
             c05.check_join_safety(ck, 'C05-4', p)
+
+
+def check_private_pool(ck: Checker, rid: str):
+    """The executor a parmapper submits to is created by that very iteration: every definition that can reach the
+    `<pool>.submit(...)` of the worker wrapper is a `ThreadPoolExecutor(...)` / `ProcessPoolExecutor(...)` call made in
+    the iterator method (directly, or as the context manager bound by `with ... as`).  A pool shared with other
+    parmappers (a module-level or named shared pool) is not bounded by this stream's `concurrency`, is not released with
+    the iteration, and deadlocks when a worker function itself runs a parmap on the same pool (every pool thread waits
+    for an inner call that can never get a thread): the outer stream then yields nothing."""
+    from .common import STREAMER, STREAMER_ASYNC
+
+    for rel, cname, itname in ((STREAMER, 'Parmapper', '__iter__'), (STREAMER_ASYNC, 'AsyncParmapper', '__aiter__')):
+        f = ck.repo.cls(rel, cname).method(itname)
+        subs = [n for n in walk_deep_func(f.node) if isinstance(n, ast.Call) and method_of(n)[1] == 'submit' and isinstance(method_of(n)[0], ast.Name)]
+        ck.need(subs, f'{f.key}: no <pool>.submit(...) found')
+        pool = method_of(subs[0])[0].id
+
+        def defs_of(name, seen=()):
+            """expressions that can be bound to `name` in the iterator method (flow-insensitive)"""
+            out = []
+            for n in walk_shallow_func(f.node):
+                if isinstance(n, ast.Assign) and any(isinstance(t, ast.Name) and t.id == name for t in n.targets):
+                    out.append(n.value)
+                if isinstance(n, (ast.With, ast.AsyncWith)):
+                    for it in n.items:
+                        if isinstance(it.optional_vars, ast.Name) and it.optional_vars.id == name:
+                            out.append(it.context_expr)
+            res = []
+            for e in out:
+                if isinstance(e, ast.Name) and e.id not in seen:
+                    inner = defs_of(e.id, seen + (name,))
+                    res += inner if inner else [e]  # a name bound outside the iterator method: not made here
+                else:
+                    res.append(e)
+            return res
+
+        ds = defs_of(pool)
+        # a keyword parameter of the nested wrapper (executor=executor handed through fifo kwargs) resolves to the outer name
+        if not ds:
+            for n in walk_deep_func(f.node):
+                if isinstance(n, ast.keyword) and n.arg == pool and isinstance(n.value, ast.Name):
+                    ds = defs_of(n.value.id)
+                    break
+        bad = [e for e in ds if not (isinstance(e, ast.Call) and (call_dotted(e) or '').endswith('PoolExecutor'))]
+        ck.ob(rid, f, subs[0], bool(ds) and not bad, f'`{pool}` is one of {len(ds)} executors constructed by this iteration' if ds and not bad else (f'`{pool}` can be `{norm_text(bad[0])[:70]}`, which this iteration did not construct: a pool shared between streams is not bounded by this stream\'s concurrency, outlives the iteration, and deadlocks when a worker function runs a parmap on the same pool (nested parmap: every pool thread waits for an inner call that never gets a thread)' if bad else f'the origin of `{pool}` is not visible in {f.name}'))
